@@ -13,7 +13,8 @@
    very operation, and never link the caller's objects with the library's.  These are predicates
    on arbitrary functions, not on the enumeration used by the harness. *)
 From SC Require Import Base.Prelude Alias.Owned Alias.OwnedProofs Alias.LayerProofs Alias.TraitProofs
-  Alias.C07Judge Alias.C07JudgeProofs.
+  Alias.Nested Alias.NestedProofs Alias.C07Judge Alias.C07JudgeProofs Alias.Monitor Alias.MonitorProofs
+  Alias.Sites Gen.AliasSites Alias.SitesProofs.
 
 (* Every message published at any point of any history - stored values, results, event old and
    new values, seeds, filtered or not - is still published and reads exactly the same after
@@ -175,3 +176,171 @@ Example C07_nonvacuous_trait_histories :
   forallb cop_proved (w_parent_remove false) = true /\ forallb cop_proved (w_parent_union false) = true /\
   forallb cop_proved (w_metadata false) = true /\ forallb cop_proved (w_enterleave false) = true.
 Proof. exact w_repaired_in_fragment. Qed.
+
+(* ---- nested read masks, in-place filtering, assembled responses that share stored messages ---- *)
+
+(* fmutils Filter with ANY nested mask (paths continuing into sub-messages and into the elements of
+   repeated message fields), applied in place to an object the operation owns, writes only objects
+   of that owner which the operation owns; objects of the other owner that existed are untouched. *)
+Theorem C07_nested_filter_in_place_good : forall lo o n s t m, heap_ok lo s -> own lo (nxt s) o t ->
+  good lo s (keep_nested n s t m) /\
+  forall u, fst u <> o -> snd u < nxt s -> lookup (hp (keep_nested n s t m)) u = lookup (hp s) u.
+Proof. exact keep_nested_goodx. Qed.
+Print Assumptions C07_nested_filter_in_place_good.
+
+(* ResponseFilter.FilterClone with any nested mask (nil: the message itself; no paths: clone + Reset;
+   otherwise clone + in-place filter of the clone) follows the discipline and returns a library message. *)
+Theorem C07_filter_clone_nested_good : forall lo n s t rm, heap_ok lo s -> snd t < nxt s ->
+  goodx lo Lib s (fst (filter_clone_n n s t rm)) /\
+  snd (snd (filter_clone_n n s t rm)) < nxt (fst (filter_clone_n n s t rm)) /\
+  (fst t = Lib -> fst (snd (filter_clone_n n s t rm)) = Lib).
+Proof. exact filter_clone_n_goodx. Qed.
+Print Assumptions C07_filter_clone_nested_good.
+
+(* The assembled read (openclosepb GetPositions and what PullPositions emits: a new response whose
+   repeated field holds the STORED messages, then FilterClone with any nested mask) is a well-behaved
+   model-level read: histories containing it are inside C07_published_frozen although its unmasked
+   response shares the stored messages (Example C07_assembled_response_shares_stored_messages). *)
+Theorem C07_assembled_read_well_behaved : forall n f rm, wb_read (r_assembled n f rm).
+Proof. exact wb_read_assembled. Qed.
+Print Assumptions C07_assembled_read_well_behaved.
+
+(* ... and it is read-only: in every state satisfying the invariant the store is unchanged and no object
+   that existed before the read - library or caller - is written. *)
+Theorem C07_assembled_read_pure : forall n st f rm, inv st ->
+  store (step n st (ORead (r_assembled n f rm))) = store st /\
+  only_allocs (hs st) (hs (step n st (ORead (r_assembled n f rm)))).
+Proof. intros. apply model_read_pure; auto. apply pure_read_inv_assembled. Qed.
+Print Assumptions C07_assembled_read_pure.
+
+(* Applying the mask to the assembled message IN PLACE (PullPositions before 2246d41; seeded change
+   C07-r3-3 in GetPositions) is harmless exactly for masks that stay on the top level of the response:
+   then only the freshly assembled root is written, in every heap ... *)
+Theorem C07_assembled_in_place_top_level_pure : forall n f m s ts, top_only m = true ->
+  only_allocs s (fst (r_assembled_v0 n f (Some m) s ts)).
+Proof. exact r_assembled_v0_top_level_pure. Qed.
+Print Assumptions C07_assembled_in_place_top_level_pure.
+
+(* ... and refuted for a path that continues into the repeated field (states.open_percent): the stored
+   positions and every earlier result lose their other fields; the read reports a store mutation. *)
+Theorem C07_assembled_in_place_v0_refuted :
+  forallb cop_guard (w_assembled true (Some w_mask_nested)) = true /\
+  model_ok true (w_assembled true (Some w_mask_nested)) = false.
+Proof. exact w_assembled_v0_fails. Qed.
+Print Assumptions C07_assembled_in_place_v0_refuted.
+Example C07_assembled_witness_now_ok :
+  forallb cop_proved (w_assembled false (Some w_mask_nested)) = true /\
+  model_ok true (w_assembled false (Some w_mask_nested)) = true /\
+  model_ok true (w_assembled false None) = true /\
+  model_ok true (w_assembled true (Some w_mask_top)) = true.
+Proof. exact w_assembled_ok. Qed.
+Example C07_assembled_response_shares_stored_messages :
+  let st := run fuel (init_state true) (map cop_op (w_assembled false None)) in
+  match nth_error (snaps st) 5, fget 1 (store st) with
+  | Some r, Some t => match get_rep (hs st) r 1 with
+                      | Some (a, len) => existsb (tag_eqb t) (elems (hs st) a len)
+                      | None => false
+                      end
+  | _, _ => false
+  end = true.
+Proof. exact w_assembled_shares. Qed.
+
+(* slices.Clone(old.Traits) instead of proto.Clone(old) in metadataMergeInterceptor (seeded change
+   C07-r3-2): the array is new, the ELEMENTS are the stored ones, and Merge writes into them. *)
+Theorem C07_metadata_slice_clone_refuted :
+  forallb cop_guard w_metadata_slice_clone = true /\ model_ok false w_metadata_slice_clone = false.
+Proof. exact w_metadata_slice_clone_fails. Qed.
+Print Assumptions C07_metadata_slice_clone_refuted.
+
+(* ---- the snapshot monitor (harness/c07: deep copy at crossing time, re-comparison after every
+   later operation) is sound and complete with respect to the tagged model ---- *)
+
+(* A registered copy is a VALUE copy: comparing a message with "itself in the heap of crossing time"
+   is comparing the tag-free contents [rd] that proto.Clone copies and proto.Equal compares. *)
+Theorem C07_snapshot_is_value_copy : forall k h1 h2 t1 t2,
+  same k h1 h2 t1 t2 = true <-> rd k h1 t1 = rd k h2 t2.
+Proof. exact same_iff_rd. Qed.
+Print Assumptions C07_snapshot_is_value_copy.
+
+(* For EVERY history - well-behaved or not - the monitor (register what crossed, compare everything,
+   re-take the copies that differ) reports at each step exactly the model's [changed]. *)
+Theorem C07_monitor_computes_model_changed : forall n ops st m, mon_inv n st m ->
+  mon_run n st ops m = changed_run n st ops.
+Proof. exact mon_run_is_changed_run. Qed.
+Print Assumptions C07_monitor_computes_model_changed.
+
+(* Soundness of one snapshot: if no object reachable from a published message is written, the
+   snapshot reads the same at every depth (no heap invariant needed). *)
+Theorem C07_monitor_sound : forall h h' k p, frozen h h' p -> same k h h' p p = true.
+Proof. exact frozen_same. Qed.
+Print Assumptions C07_monitor_sound.
+
+(* Soundness over whole histories: under the hypotheses of C07_published_frozen, whatever the monitor
+   reports at any step of any history is a message the caller owns - a library message (stored value,
+   result, event old/new value, seed, assembled response) is never reported. *)
+Theorem C07_monitor_quiet_on_library_messages : forall n ops st m,
+  inv st -> Forall op_ok ops -> mon_inv n st m ->
+  forall rep i, In rep (mon_run n st ops m) -> In i rep ->
+    exists st0 p, In (i, p) (zip_index 0 (snaps st0)) /\ fst p = Caller.
+Proof. exact monitor_quiet_on_library_messages. Qed.
+Print Assumptions C07_monitor_quiet_on_library_messages.
+
+(* The converse, used for reporting: a snapshot that differs exhibits an object REACHABLE from the
+   published message (in the heap it is compared against) whose cell has been written. *)
+Theorem C07_monitor_complete : forall h h' k p, same k h h' p p = false ->
+  exists u, reach h p u /\ lookup h' u <> lookup h u.
+Proof. exact changed_reaches_write. Qed.
+Print Assumptions C07_monitor_complete.
+
+(* ... over histories: every index the monitor reports after operation o names a message that had
+   crossed before o and from which an object written BY o is reachable. *)
+Theorem C07_monitor_report_is_a_write : forall n ops st m, mon_inv n st m ->
+  forall pre o post, ops = pre ++ o :: post ->
+  forall i, In i (nth (List.length pre) (mon_run n st ops m) []) ->
+    let st1 := run n st pre in
+    exists p u, In (i, p) (zip_index 0 (snaps st1)) /\ reach (hp (hs st1)) p u /\
+                lookup (hp (hs (step n st1 o))) u <> lookup (hp (hs st1)) u.
+Proof. exact monitor_report_is_a_write. Qed.
+Print Assumptions C07_monitor_report_is_a_write.
+
+Example C07_monitor_nonvacuous :
+  mon_inv fuel (init_state true) (mon_of (init_state true)) /\
+  mon_run fuel (init_state true) (map cop_op (w_parent_remove true)) (mon_of (init_state true)) = [[]; []; [1; 2]] /\
+  mon_run fuel (init_state true) (map cop_op (w_parent_remove false)) (mon_of (init_state true)) = [[]; []; []].
+Proof. split; [apply mon_of_inv | vm_compute; auto]. Qed.
+
+(* ---- the judge against the model ---- *)
+(* Inside the proved fragment, an observation that agrees with the model has no wrong event value, no
+   read that changes the store or any snapshot, and reports as changed only messages the caller owns.
+   PARTIAL: C07_ok additionally requires that a caller-owned snapshot changes only when the caller
+   rewrites that very message; this is not derived from agreement (the semantic hypotheses wb_before /
+   wb_after allow an interceptor to write any caller-owned object), it is checked per case. *)
+Theorem C07_judge_sound_partial : forall ops obs st, inv st -> forallb cop_proved ops = true ->
+  agrees_from st ops obs = true -> lib_quiet st ops obs.
+Proof. exact judge_sound_lib. Qed.
+Print Assumptions C07_judge_sound_partial.
+
+(* ---- the in-place write sites of the tree under check (Gen/AliasSites.v, regenerated from the source
+   on every run) satisfy the ownership discipline: whatever hand-written code of pkg/masks, pkg/resource
+   and pkg/trait filters, merges into, resets, sorts, shifts or assigns a field of is an object the
+   function built or cloned, or one of its parameters - and never the first parameter (the live old
+   message) of a function registered as an interceptor; the reviewed exceptions are listed with their
+   reason in Alias/Sites.v and each of them is still in use. ---- *)
+Theorem C07_source_sites_follow_discipline : sites_ok alias_sites = true.
+Proof. exact alias_sites_discipline. Qed.
+Print Assumptions C07_source_sites_follow_discipline.
+Theorem C07_source_sites_reviewed_all_used :
+  forallb (fun r => match r with (f, k, e, _) =>
+             existsb (fun s => String.eqb f (as_func s) && String.eqb k (as_kind s) && String.eqb e (as_expr s)) alias_sites
+           end) reviewed = true.
+Proof. exact reviewed_all_used. Qed.
+Print Assumptions C07_source_sites_reviewed_all_used.
+(* the rows the translator reports for the code before the repairs / under the seeded changes violate it *)
+Theorem C07_source_sites_v0_refuted :
+  sites_ok sites_metadata_v0 = false /\ sites_ok sites_parent_v0 = false /\
+  sites_ok sites_openclose_v0 = false /\ sites_ok sites_enterleave_v0 = false.
+Proof. exact sites_v0_refuted. Qed.
+Print Assumptions C07_source_sites_v0_refuted.
+Example C07_source_sites_nonvacuous : (100 <=? zlen alias_sites)%Z = true /\
+  has_site alias_sites "metadataMergeInterceptor" "Sort" = true /\ has_site alias_sites "traitUnion" "ShiftAppend" = true.
+Proof. destruct alias_sites_cover_the_model as (A & _ & _ & _ & _ & _ & _ & _ & B & _ & _ & _ & C & _). auto. Qed.
